@@ -129,6 +129,12 @@ impl Tables {
         if let Some(id) = self.feat.get(&diff) {
             return vec![*id];
         }
+        // resolving pairs / triples is quadratic: on a badly broken tree only the first few hundred differences are
+        // resolved, the rest are reported as unknown (id 0)
+        static EXPENSIVE: std::sync::atomic::AtomicUsize = std::sync::atomic::AtomicUsize::new(0);
+        if EXPENSIVE.fetch_add(1, std::sync::atomic::Ordering::Relaxed) > 300 {
+            return vec![0];
+        }
         for (v, id) in &self.consts {
             if let Some(id2) = self.feat.get(&(diff ^ v)) {
                 let mut r = vec![*id, *id2];
